@@ -250,10 +250,14 @@ def run_case(spec):
 
 def strategy():
     from hypothesis import strategies as st
-    titles = st.sampled_from(['Sheet1', 'Data', 'Лист', 'My Sheet', 'a-b', 'X', 'Summary 2024', 'Z9', 'q.r', 'T', "it's", 'a!b', '数据', '2023', '1', '0', '10'])
+    titles = st.sampled_from(['Sheet1', 'Data', 'Лист', 'My Sheet', 'a-b', 'X', 'Summary 2024', 'Z9', 'q.r', 'T', "it's", 'a!b', '数据', '2023', '1', '0', '10',
+                               # characters beyond the basic plane (emoji, mathematical letters)
+                               '\U0001F4CA data', '\U0001D538\U0001D539', 'a\U0001F600b'])
     text = st.one_of(st.text(alphabet=st.characters(min_codepoint=32, max_codepoint=0x2fff, blacklist_categories=('Cs', 'Cc', 'Cn'),
                                                       blacklist_characters='￾￿'), min_size=1, max_size=12),
-                     st.sampled_from(['abc', ' lead', 'trail ', 'TRUE', '12', '1e5', "it's", 'a"b', 'line1\nline2', 'tab\there', '#N/A', '\\n', '{x}', '%s', '0', '-', "'"]))
+                     st.sampled_from(['abc', ' lead', 'trail ', 'TRUE', '12', '1e5', "it's", 'a"b', 'line1\nline2', 'tab\there', '#N/A', '\\n', '{x}', '%s', '0', '-', "'",
+                                      # a text is a text although an equals sign follows its leading blanks
+                                      ' =1+2', '\n=D8', '  = total', ' ==', '\t=A1', ' =SUM(A1:A2)']))
     text = text.filter(lambda s: not s.startswith('=') and s.strip() != '' or s in (' lead', 'trail '))
     dt = st.datetimes(min_value=datetime.datetime(1900, 3, 1), max_value=datetime.datetime(9999, 12, 31)).map(
         lambda d: {'$dt': d.replace(microsecond=0).isoformat()})
